@@ -25,6 +25,7 @@ def run(ctx):
     shared.overlay_entries_replaced_whole(ctx, '3w', MAPS=shared.COMMIT_OVERLAY_MAPS, what='commit', key=' commit-overlay-entries-replaced-whole', floor=2)
     shared.read_layering(ctx, '4')
     shared.file_reads_shadowed(ctx, '4s')
+    shared.index_hit_verified_against_key(ctx, '7')   # a planned write lands on the key it names
     # the latest value of a key may still live only in an older, queued index table: reader and planner search them all
     from props import C09
     C09.both_index_search(ctx, '4r', 'column::HashColumn::get', ['column::HashColumn::get_in_index'], 0, '.Tables.index')
@@ -75,6 +76,18 @@ def run(ctx):
     lib.callers_confined(ctx, '6a key-hashers-confined', F, ['re:^blake2::', 're:Blake2bMac', 're:siphasher::sip128::', 're:SipHasher13'],
                          {'column::hash_key'}, 'only column::hash_key touches the key-hash primitives (Blake2bMac / SipHasher13-128); the ref-count table hashes addresses, not keys',
                          required=['column::hash_key'])
+    if hkb:
+        # whatever enters a digest in hash_key is the whole key: a digest over a sub-range makes keys that differ only outside it one key
+        dg = [bi for bi, t in hkb.calls() if bi in hkb.normal_blocks() and call_matches(t, ['re:as std::hash::Hasher>::write$', 're:digest::Update>::update$', 're:::update$', 're:Hasher::write$'])]
+        ctx.ob('6m0 digest-input-sites', 'anchor', hkb.path, 'the digest inputs of hash_key were found (siphash for uniform keys, blake2 otherwise)', len(dg) >= 2, str(dg))
+        for i, x in enumerate(dg):
+            t = hkb.term(x)
+            a = t['a'][1] if len(t['a']) > 1 else None
+            sl = backward_slice(hkb, [op_place(a)]) if a is not None and op_place(a) is not None else None
+            sub = sorted(c for c in (sl.calls if sl else []) if re.search(r'ops::Index(Mut)?<I>.*::index(_mut)?$|::get$|split_at|::first_chunk|::chunks', c)) if sl else []
+            ok = sl is not None and 1 in sl.params and not sub
+            ctx.ob('6m digest-covers-the-whole-key #%d' % i, 'K4-provenance', hkb.path, 'the bytes fed to the key digest are the key parameter itself, not a sub-range of it (keys longer than the fixed head stay distinct)',
+                   ok, 'digest input %s' % ('is a sub-range: ' + ', '.join(sub) if sub else 'does not derive from the key parameter'), hkb.loc(x))
     hk = sorted(F.direct_callers_of('column::hash_key'))
     allowed = {'column::HashColumn::hash_key', 'db::IndexedChangeSet::push::{closure#0}', 'db::DbInner::commit_changes'}
     ctx.ob('6b hash_key-callers', 'K4-confinement', ','.join(hk), 'reader side (HashColumn::hash_key) and writer side (IndexedChangeSet::push, commit_changes) all go through column::hash_key',
